@@ -1,6 +1,376 @@
-//! placeholder: filled in by the check that owns this sub-command
+//! C14 — operator precedence and associativity.
+//!
+//! `vh prec replay <dir>`   spec -> impl.  Reads what TLC wrote from spec/MC_Prec.tla and
+//!                          spec/MC_PrecVal.tla:
+//!   <dir>/prec_cases.ndjson   token sequences with the prescribed fully parenthesised tree (or
+//!                             "reject"); observed *structurally*: the text is parsed with the real
+//!                             grammar (`SimpleSLParser::parse(Rule::input, ..)`) and grouped by the
+//!                             real table (`PRATT_PARSER` with callbacks that build a parenthesised
+//!                             string), whatever the operands' types are;
+//!   <dir>/prec_values.ndjson  operands chosen by the specification such that the groupings are
+//!                             observably different, with the predicted value of the unparenthesised
+//!                             text and of every parenthesised alternative; observed *by value*
+//!                             through `Code::parse(..).exec()` in two execution forms (operands as
+//!                             constants; operands as parameters of a function).
+//! `vh prec record <dir> <n> <out.ndjson>`   impl -> spec.  A seeded random stream of longer token
+//!                             sequences (3..9 binary operators, prefix and postfix forms) over the
+//!                             lexicon TLC wrote (<dir>/prec_lexicon.ndjson) is parsed structurally
+//!                             and written for spec/MC_PrecTrace.tla, which recomputes the grouping.
+//!
+//! Nothing here knows a precedence level: the lexicon carries names and fixities only.
+use crate::util::{Mismatches, Rng, catch, read_ndjson};
+use pest::{Parser, iterators::Pair};
 use serde_json::{Value, json};
+use simplesl::{Code, Interpreter, variable::Variable};
+use simplesl_parser::{PRATT_PARSER, Rule, SimpleSLParser};
+use std::io::Write;
 
-pub fn run(_args: &[String]) -> Value {
-    json!({"error": "not implemented"})
+// ------------------------------------------------------------------ structural observation
+
+fn squeeze(s: &str) -> String {
+    s.chars().filter(|c| !c.is_whitespace()).collect()
+}
+
+/// Fully parenthesised rendering of an `expr` pair, grouped by the implementation's Pratt table.
+/// Same format as `Show` in Prec.tla: `(l op r)`, `(op e)` without blank, `(e op)` without blank.
+fn tree_of(pair: Pair<Rule>) -> String {
+    PRATT_PARSER
+        .map_primary(|p| if p.as_rule() == Rule::expr { tree_of(p) } else { squeeze(p.as_str()) })
+        .map_prefix(|op, rhs| format!("({}{})", squeeze(op.as_str()), rhs))
+        .map_infix(|lhs, op, rhs| format!("({} {} {})", lhs, squeeze(op.as_str()), rhs))
+        .map_postfix(|lhs, op| format!("({}{})", lhs, squeeze(op.as_str())))
+        .parse(pair.into_inner())
+}
+
+/// Ok(tree) when the whole text is exactly one expression; Err(reason) otherwise.
+pub fn observe(text: &str) -> Result<String, String> {
+    let res = catch(|| -> Result<String, String> {
+        let pairs = SimpleSLParser::parse(Rule::input, text).map_err(|_| "syntax error".to_string())?;
+        let pairs: Vec<Pair<Rule>> = pairs.filter(|p| p.as_rule() != Rule::EOI).collect();
+        if pairs.len() != 1 {
+            return Err(format!("{} statements", pairs.len()));
+        }
+        let pair = pairs.into_iter().next().unwrap();
+        if pair.as_rule() != Rule::expr {
+            return Err(format!("a {:?}, not an expression", pair.as_rule()));
+        }
+        if pair.as_str().trim() != text.trim() {
+            return Err("expression does not span the text".to_string());
+        }
+        Ok(tree_of(pair))
+    });
+    match res {
+        Ok(r) => r,
+        Err(p) => Err(format!("PANIC {p}")),
+    }
+}
+
+fn case_text(c: &Value) -> String {
+    let sep = c["sep"].as_str().unwrap_or(" ");
+    c["parts"].as_array().unwrap().iter().map(|p| p.as_str().unwrap()).collect::<Vec<_>>().join(sep)
+}
+
+// ------------------------------------------------------------------ observation by value
+
+fn lit(v: &Value) -> String {
+    match v["k"].as_str().unwrap() {
+        "int" => v["v"].as_i64().unwrap().to_string(),
+        "bool" => v["v"].as_bool().unwrap().to_string(),
+        "cell" => format!("mut {}", lit(&v["c"])),
+        "arr" => format!("[{}]", v["es"].as_array().unwrap().iter().map(lit).collect::<Vec<_>>().join(", ")),
+        "tup" => format!("({})", v["es"].as_array().unwrap().iter().map(lit).collect::<Vec<_>>().join(", ")),
+        "struct" => format!("struct{{x := {}}}", lit(&v["x"])),
+        "fn" => match v["n"].as_str().unwrap() {
+            "inc" => "(x: int) -> int { return x + 1 }".to_string(),
+            "dbl" => "(x: int) -> int { return 2 * x }".to_string(),
+            "odd" => "(x: int) -> bool { return x % 2 == 1 }".to_string(),
+            "add" => "(acc: int, x: int) -> int { return acc + x }".to_string(),
+            other => panic!("unknown named function {other}"),
+        },
+        other => panic!("cannot render a {other}"),
+    }
+}
+
+fn type_of(v: &Value) -> String {
+    match v["k"].as_str().unwrap() {
+        "int" => "int".to_string(),
+        "bool" => "bool".to_string(),
+        "cell" => format!("mut {}", type_of(&v["c"])),
+        "arr" => format!("[{}]", v["ek"].as_str().unwrap()),
+        "tup" => format!("({})", v["es"].as_array().unwrap().iter().map(type_of).collect::<Vec<_>>().join(", ")),
+        "struct" => format!("struct{{x: {}}}", type_of(&v["x"])),
+        "fn" => match v["n"].as_str().unwrap() {
+            "inc" | "dbl" => "(int) -> int".to_string(),
+            "odd" => "(int) -> bool".to_string(),
+            "add" => "(int, int) -> int".to_string(),
+            other => panic!("unknown named function {other}"),
+        },
+        "none" => "any".to_string(),
+        other => panic!("no type for a {other}"),
+    }
+}
+
+/// The observable part of a value, in the specification's wire form (element kinds dropped).
+fn var_json(v: &Variable) -> Value {
+    match v {
+        Variable::Int(n) => json!({"k": "int", "v": n}),
+        Variable::Bool(b) => json!({"k": "bool", "v": b}),
+        Variable::Array(a) => json!({"k": "arr", "es": a.iter().map(var_json).collect::<Vec<_>>()}),
+        Variable::Tuple(t) => json!({"k": "tup", "es": t.iter().map(var_json).collect::<Vec<_>>()}),
+        other => json!({"k": "other", "dbg": format!("{other:?}")}),
+    }
+}
+
+fn strip_ek(v: &Value) -> Value {
+    match v {
+        Value::Object(m) => Value::Object(m.iter().filter(|(k, _)| k.as_str() != "ek").map(|(k, x)| (k.clone(), strip_ek(x))).collect()),
+        Value::Array(a) => Value::Array(a.iter().map(strip_ek).collect()),
+        other => other.clone(),
+    }
+}
+
+/// The program that evaluates `expr` over the chosen operands. form 0: operands are constants
+/// of the enclosing scope; form 1: operands are parameters of a function that is then called.
+fn program(decls: &[Value], expr: &str, ret: &Value, form: usize) -> String {
+    let cells: Vec<&Value> = decls.iter().filter(|d| d["v"]["k"] == "cell").collect();
+    let mut p = String::new();
+    if form == 0 {
+        for d in decls {
+            p += &format!("{} := {};\n", d["n"].as_str().unwrap(), lit(&d["v"]));
+        }
+        p += &format!("vres := {expr};\n");
+    } else {
+        for d in &cells {
+            p += &format!("{} := {};\n", d["n"].as_str().unwrap(), lit(&d["v"]));
+        }
+        let params = decls.iter().map(|d| format!("{}: {}", d["n"].as_str().unwrap(), type_of(&d["v"]))).collect::<Vec<_>>().join(", ");
+        let args = decls
+            .iter()
+            .map(|d| if d["v"]["k"] == "cell" { d["n"].as_str().unwrap().to_string() } else { lit(&d["v"]) })
+            .collect::<Vec<_>>()
+            .join(", ");
+        p += &format!("vfun := ({params}) -> {} {{ return {expr} }};\n", type_of(ret));
+        p += &format!("vres := vfun({args});\n");
+    }
+    if cells.is_empty() {
+        p += "vres";
+    } else {
+        p += &format!("(vres, {})", cells.iter().map(|d| format!("*{}", d["n"].as_str().unwrap())).collect::<Vec<_>>().join(", "));
+    }
+    p
+}
+
+/// {"ok": true, "v": .., "cells": [..]} or {"ok": false, "why": ..}
+fn run_program(prog: &str, n_cells: usize) -> Value {
+    let interp = Interpreter::without_stdlib();
+    let code = match catch(|| Code::parse(&interp, prog)) {
+        Err(p) => return json!({"ok": false, "why": format!("PANIC while parsing: {p}"), "panic": true}),
+        Ok(Err(e)) => return json!({"ok": false, "why": format!("rejected: {e}")}),
+        Ok(Ok(c)) => c,
+    };
+    match catch(|| code.exec()) {
+        Err(p) => json!({"ok": false, "why": format!("PANIC while running: {p}"), "panic": true}),
+        Ok(Err(e)) => json!({"ok": false, "why": format!("run-time error: {e}")}),
+        Ok(Ok(v)) => {
+            if n_cells == 0 {
+                json!({"ok": true, "v": var_json(&v), "cells": []})
+            } else if let Variable::Tuple(t) = &v {
+                json!({"ok": true, "v": var_json(&t[0]), "cells": t[1..].iter().map(var_json).collect::<Vec<_>>()})
+            } else {
+                json!({"ok": false, "why": format!("observation tuple expected, got {v:?}")})
+            }
+        }
+    }
+}
+
+fn outcome_eq(spec: &Value, got: &Value) -> bool {
+    let ok = spec["ok"].as_bool().unwrap();
+    if ok != got["ok"].as_bool().unwrap() {
+        return false;
+    }
+    !ok || (strip_ek(&spec["v"]) == got["v"] && strip_ek(&spec["cells"]) == got["cells"])
+}
+
+// ------------------------------------------------------------------ replay
+
+fn replay(dir: &str) -> Value {
+    let mut mm = Mismatches::new(400);
+    let mut samples = vec![];
+    // --- structural
+    let cases = read_ndjson(&format!("{dir}/prec_cases.ndjson"));
+    let mut fam_counts = serde_json::Map::new();
+    let mut structural = 0u64;
+    let mut rejects_expected = 0u64;
+    for c in &cases {
+        let fam = c["fam"].as_str().unwrap();
+        let n = fam_counts.get(fam).and_then(Value::as_u64).unwrap_or(0);
+        fam_counts.insert(fam.to_string(), json!(n + 1));
+        let text = case_text(c);
+        let expect = c["expect"].as_str().unwrap();
+        let got = observe(&text);
+        structural += 1;
+        let kind = if fam.starts_with("adj") { "lex" } else { "group" };
+        match (&got, expect) {
+            (Err(why), "reject") if !why.starts_with("PANIC") => rejects_expected += 1,
+            (Ok(tree), e) if tree == e => {}
+            _ => mm.push(kind, json!({"id": c["id"], "fam": fam, "text": text, "expected": expect,
+                "got": match &got { Ok(t) => json!(t), Err(w) => json!(format!("reject: {w}")) }})),
+        }
+        if n == 0 {
+            samples.push(json!({"fam": fam, "text": text, "spec": expect, "impl": got.clone().unwrap_or_else(|w| format!("reject: {w}"))}));
+        }
+    }
+    // --- by value
+    let vpath = format!("{dir}/prec_values.ndjson");
+    let vals = if std::path::Path::new(&vpath).exists() { read_ndjson(&vpath) } else { vec![] };
+    let (mut v_cases, mut v_runs, mut v_both, mut v_one, mut v_value, mut v_unfound) = (0u64, 0u64, 0u64, 0u64, 0u64, 0u64);
+    for c in &vals {
+        if !c["found"].as_bool().unwrap() {
+            v_unfound += 1;
+            continue;
+        }
+        v_cases += 1;
+        match c["strength"].as_str().unwrap() {
+            "both" => v_both += 1,
+            "one" => v_one += 1,
+            _ => v_value += 1,
+        }
+        let decls = c["decls"].as_array().unwrap();
+        let n_cells = decls.iter().filter(|d| d["v"]["k"] == "cell").count();
+        let text = c["text"].as_str().unwrap();
+        let want = &c["want"];
+        for form in 0..2 {
+            let form_name = if form == 0 { "const" } else { "param" };
+            // the unparenthesised text: the specification's value of the prescribed grouping
+            let prog = program(decls, text, &want["v"], form);
+            let got = run_program(&prog, n_cells);
+            v_runs += 1;
+            if !outcome_eq(want, &got) {
+                mm.push("value", json!({"id": c["id"], "fam": c["fam"], "text": text, "form": form_name, "program": prog,
+                    "prescribed": want["text"], "expected": want, "got": got}));
+            }
+            // the prescribed grouping written with parentheses
+            let prog_p = program(decls, want["text"].as_str().unwrap(), &want["v"], form);
+            let got_p = run_program(&prog_p, n_cells);
+            v_runs += 1;
+            if !outcome_eq(want, &got_p) {
+                mm.push("eval", json!({"id": c["id"], "fam": c["fam"], "text": want["text"], "form": form_name, "program": prog_p,
+                    "expected": want, "got": got_p}));
+            }
+            // every other grouping must be observably different, as predicted
+            for o in c["others"].as_array().unwrap() {
+                let prog_o = program(decls, o["text"].as_str().unwrap(), &o["v"], form);
+                let got_o = run_program(&prog_o, n_cells);
+                v_runs += 1;
+                if got_o.get("panic").is_some() || !outcome_eq(o, &got_o) {
+                    mm.push("other", json!({"id": c["id"], "fam": c["fam"], "text": o["text"], "form": form_name, "program": prog_o,
+                        "expected": o, "got": got_o}));
+                } else if got_o["ok"] == true && got_o["v"] == got["v"] && got_o["cells"] == got["cells"] && got["ok"] == true {
+                    mm.push("indistinct", json!({"id": c["id"], "fam": c["fam"], "text": text, "other": o["text"], "form": form_name}));
+                }
+            }
+            if form == 1 && (c["id"].as_u64().unwrap() % 331 == 7 || c["fam"] == "v_idiom" && c["id"].as_u64().unwrap() % 13 == 0) {
+                samples.push(json!({"fam": c["fam"], "program": prog, "spec": want, "impl": got}));
+            }
+        }
+    }
+    json!({
+        "structural_cases": structural, "families": fam_counts, "rejects_expected": rejects_expected,
+        "value_cases": v_cases, "value_runs": v_runs, "value_strength": {"both": v_both, "one": v_one, "value_only": v_value},
+        "value_unfound": v_unfound,
+        "mismatch_counts": mm.counts(), "mismatches": mm.items(), "samples": samples,
+    })
+}
+
+// ------------------------------------------------------------------ record (impl -> spec)
+
+struct Lexicon {
+    pre: Vec<(String, String)>,
+    bin: Vec<(String, String)>,
+    post: Vec<(String, String)>,
+    /// binary operator name -> prefix operators the specification leaves unsettled after it
+    nopre: std::collections::HashMap<String, Vec<String>>,
+}
+
+fn lexicon(dir: &str) -> Lexicon {
+    let mut l = Lexicon { pre: vec![], bin: vec![], post: vec![], nopre: Default::default() };
+    for r in read_ndjson(&format!("{dir}/prec_lexicon.ndjson")) {
+        let e = (r["n"].as_str().unwrap().to_string(), r["txt"].as_str().unwrap().to_string());
+        if r["fix"] == "bin" {
+            let np = r["nopre"].as_array().map(|a| a.iter().map(|x| x.as_str().unwrap().to_string()).collect()).unwrap_or_default();
+            l.nopre.insert(e.0.clone(), np);
+        }
+        match r["fix"].as_str().unwrap() {
+            "pre" => l.pre.push(e),
+            "bin" => l.bin.push(e),
+            "post" => l.post.push(e),
+            other => panic!("fixity {other}"),
+        }
+    }
+    l
+}
+
+fn record(dir: &str, n: usize, out: &str) -> Value {
+    let lex = lexicon(dir);
+    let mut rng = Rng::from_env(0xC14);
+    let names = ["a", "b", "c", "d"];
+    let mut f = std::io::BufWriter::new(std::fs::File::create(out).unwrap());
+    let (mut accepted, mut rejected, mut max_ops) = (0u64, 0u64, 0usize);
+    for run in 0..n {
+        let atoms = 3 + rng.below(7); // 3..9 operands, i.e. 2..8 binary operators
+        let mut toks: Vec<(String, String)> = vec![];
+        let mut parts: Vec<String> = vec![];
+        let mut ops = 0;
+        for a in 0..atoms {
+            let mut unsettled: &[String] = &[];
+            if a > 0 {
+                let (nm, txt) = rng.pick(&lex.bin).clone();
+                unsettled = lex.nopre.get(&nm).map(Vec::as_slice).unwrap_or(&[]);
+                toks.push(("bin".into(), nm));
+                parts.push(txt);
+                ops += 1;
+            }
+            if rng.chance(1, 4) {
+                let (nm, txt) = rng.pick(&lex.pre).clone();
+                if !unsettled.contains(&nm) {
+                    toks.push(("pre".into(), nm));
+                    parts.push(txt);
+                    ops += 1;
+                }
+            }
+            let nm = names[a % 4];
+            toks.push(("opd".into(), nm.into()));
+            parts.push(nm.into());
+            let posts = if rng.chance(1, 3) { 1 + rng.below(2) } else { 0 };
+            for _ in 0..posts {
+                let (nm, txt) = rng.pick(&lex.post).clone();
+                toks.push(("post".into(), nm));
+                parts.push(txt);
+                ops += 1;
+            }
+        }
+        max_ops = max_ops.max(ops);
+        let text = parts.join(" ");
+        let got = observe(&text);
+        match &got {
+            Ok(_) => accepted += 1,
+            Err(_) => rejected += 1,
+        }
+        let rec = json!({"run": run, "toks": toks.iter().map(|(t, s)| json!([t, s])).collect::<Vec<_>>(), "text": text,
+            "got": match &got { Ok(t) => t.clone(), Err(w) => format!("reject: {w}") }});
+        writeln!(f, "{}", serde_json::to_string(&rec).unwrap()).unwrap();
+    }
+    json!({"recorded": n, "accepted": accepted, "rejected": rejected, "max_operators": max_ops})
+}
+
+pub fn run(args: &[String]) -> Value {
+    match args.first().map(String::as_str) {
+        Some("replay") => replay(&args[1]),
+        Some("record") => record(&args[1], args[2].parse().unwrap(), &args[3]),
+        Some("tree") => match observe(&args[1]) {
+            Ok(t) => json!({"tree": t}),
+            Err(w) => json!({"reject": w}),
+        },
+        _ => json!({"error": "usage: vh prec replay <dir> | record <dir> <n> <out> | tree <text>"}),
+    }
 }
